@@ -22,6 +22,7 @@ import (
 	"fmt"
 	"math"
 	"math/rand"
+	"os"
 	"runtime/debug"
 	"sort"
 	"strings"
@@ -240,13 +241,6 @@ func guard(f func() error) (err error, panicked string) {
 	return f(), ""
 }
 
-func errStr(e error) string {
-	if e == nil {
-		return ""
-	}
-	return e.Error()
-}
-
 // ---------------------------------------------------------------------------------------------
 // the store under test
 
@@ -355,9 +349,8 @@ type obsStats struct {
 }
 
 // observe compares Get of every id and a few queries with the model. where names the vantage point.
-// only == nil: Get every id of the domain and run all queries; otherwise (the cheaper look from inside
-// the writing transaction) Get the listed ids and run the first three queries.
-func observe(vs ai.VectorStore[Payload], m *model, scen string, dim int, where string, rnd *rand.Rand, st *obsStats, only []string) (fs []finding, inconclusive string) {
+// light (the look from inside the writing transaction): only the first three queries.
+func observe(vs ai.VectorStore[Payload], m *model, scen string, dim int, where string, rnd *rand.Rand, st *obsStats, light bool) (fs []finding, inconclusive string) {
 	getFailed := map[string]bool{} // a query finding about an id whose Get already disagreed is a consequence
 	add := func(sig string, d map[string]any) {
 		d["where"] = where
@@ -371,9 +364,6 @@ func observe(vs ai.VectorStore[Payload], m *model, scen string, dim int, where s
 		fs = append(fs, finding{Sig: sig, Detail: d})
 	}
 	ids := append(append([]string{}, m.ids...), "zz-never-stored")
-	if only != nil {
-		ids = append(append([]string{}, only...), "zz-never-stored")
-	}
 	for _, id := range ids {
 		var it *ai.Item[Payload]
 		err, pan := guard(func() error {
@@ -396,7 +386,14 @@ func observe(vs ai.VectorStore[Payload], m *model, scen string, dim int, where s
 			case it == nil:
 				add(fmt.Sprintf("C33:%s:get@%s:nil-item-no-error", scen, cls), map[string]any{"id": id})
 			case !vecEq(it.Vector, x.vec):
-				add(fmt.Sprintf("C33:%s:get@%s:wrong-vector", scen, cls), map[string]any{"id": id, "got_vec": fstr(it.Vector), "expected_vec": x.vec, "earlier_vecs": x.old})
+				// stale-vector: an earlier vector of this id came back; foreign-vector: one never upserted under this id
+				kind := "foreign-vector"
+				for _, o := range x.old {
+					if vecEq(o, it.Vector) {
+						kind = "stale-vector"
+					}
+				}
+				add(fmt.Sprintf("C33:%s:get@%s:%s", scen, cls, kind), map[string]any{"id": id, "got_vec": fstr(it.Vector), "expected_vec": x.vec, "earlier_vecs": x.old})
 			case it.Payload != x.p:
 				add(fmt.Sprintf("C33:%s:get@%s:wrong-payload", scen, cls), map[string]any{"id": id, "got_payload": it.Payload, "expected_payload": x.p})
 			case it.ID != id:
@@ -411,7 +408,7 @@ func observe(vs ai.VectorStore[Payload], m *model, scen string, dim int, where s
 		}
 	}
 	qs := queries(m, dim, rnd)
-	if only != nil && len(qs) > 3 {
+	if light && len(qs) > 3 {
 		qs = qs[:3]
 	}
 	for _, q := range qs {
@@ -508,14 +505,6 @@ type outcome struct {
 	steps        int
 }
 
-func itemIDs(items []Item) []string {
-	var out []string
-	for _, it := range items {
-		out = append(out, it.ID)
-	}
-	return out
-}
-
 func dedupFindings(fs []finding) []finding {
 	seen := map[string]bool{}
 	var out []finding
@@ -607,17 +596,7 @@ func execute(p Program) (out outcome) {
 			}
 		}
 		if st.InTx && !st.Optimize {
-			touched := []string{}
-			seenT := map[string]bool{}
-			for _, op := range st.Ops {
-				for _, id := range append([]string{op.ID}, itemIDs(op.Items)...) {
-					if id != "" && !seenT[id] {
-						seenT[id] = true
-						touched = append(touched, id)
-					}
-				}
-			}
-			fs, inc := observe(vs, m, scen, p.Cfg.Dim, "inside-writing-transaction", qr, &out.stats, touched)
+			fs, inc := observe(vs, m, scen, p.Cfg.Dim, "inside-writing-transaction", qr, &out.stats, true)
 			if fail(i, fs) {
 				tx.Rollback(ctx)
 				return
@@ -672,7 +651,7 @@ func execute(p Program) (out outcome) {
 			out.inconclusive = "open-error(" + where + "): " + err.Error()
 			return
 		}
-		fs, inc := observe(rvs, m, scen, p.Cfg.Dim, where, qr, &out.stats, nil)
+		fs, inc := observe(rvs, m, scen, p.Cfg.Dim, where, qr, &out.stats, false)
 		if mode == sop.ForReading {
 			rtx.Commit(ctx)
 		} else {
@@ -1071,13 +1050,14 @@ func shrink(p Program, sig string, failStep int, budget int) (Program, int) {
 const rule = "case = one generated program (scenario class x usage mode x dedup x dim 2-8 x 5-20 ids x content size; " +
 	"5-12 steps, each its own writing transaction of Upsert/UpsertBatch/Delete ops, Optimize in its own or a shared transaction) " +
 	"run against the real store; after every step Get of every id of the domain and 6-7 queries are compared with the model " +
-	"from a fresh reading/writing transaction, and in 1/3 of the steps Get of the touched ids and 3 queries also inside the writing transaction before the commit. " +
+	"from a fresh reading/writing transaction, and in 1/3 of the steps (Get of every id, 3 queries) also inside the writing transaction before the commit. " +
 	"fingerprint = hash of the program; non-trivial = at least one Optimize ran while the store held live, deleted AND re-upserted ids (nodedup scenario: live and deleted ids), " +
 	"and at least one query returned >= 2 hits."
 
 var assumptions = []string{
 	"Completeness of the top-k is NOT asserted: the index is an approximate IVF index (Query scans the 2 closest centroids only). With EnableIngestionBuffer the query path is a documented brute-force scan of TempVectors (exact), still not asserted.",
 	"A mutating call (Upsert/UpsertBatch/Delete/Optimize/Commit) or a Query that returns an error ends the case as inconclusive; the statement only speaks about what Get and Query return after the calls happened.",
+	"A panic escaping Open/Get/Query/Upsert/UpsertBatch/Delete/Optimize is reported with the outcome class 'panic' (the call returned neither a result nor an error); the case ends there.",
 	"Scores are compared with the float64 cosine of the latest vector within 1e-4; the order is checked on the returned scores (non-increasing, exact).",
 	"One id appears at most once per UpsertBatch (the statement does not say which of two wins).",
 	"Scenario build-once (BuildOnceQueryMany): writes only before the single Optimize, read-only afterwards (documented use). Scenario nodedup (SetDeduplication(false)): an id is upserted at most once (documented: pristine data only). Scenario buffered: EnableIngestionBuffer=true during the initial ingestion up to and including the first Optimize, opened without the buffer afterwards - the lifecycle the package's own tests use.",
@@ -1094,6 +1074,9 @@ type caseResult struct {
 
 // Run is the check entry point.
 func Run(r *report.Run) int {
+	if r.Replay != "" {
+		return replay(r)
+	}
 	n := r.Pick(40, 500)
 	workers := 12
 	rnd := env.Rand(r.Seed, "c33")
@@ -1185,4 +1168,48 @@ func Run(r *report.Run) int {
 		r.Set("inconclusive_samples", list)
 	}
 	return r.Finish(rule, assumptions, 20)
+}
+
+// replay re-executes the (minimised, if present) program of one replay file. K-means inside the store
+// is seeded from the clock, so the program is run up to 5 times; every disagreement is reported.
+func replay(r *report.Run) int {
+	b, err := os.ReadFile(r.Replay)
+	if err != nil {
+		r.Broken("cannot read replay file: %v", err)
+		return r.Finish(rule, assumptions, 0)
+	}
+	var f struct {
+		Signature string `json:"signature"`
+		Detail    struct {
+			Program   *Program `json:"program"`
+			Minimized *Program `json:"minimized_program"`
+		} `json:"detail"`
+	}
+	if err := json.Unmarshal(b, &f); err != nil || (f.Detail.Program == nil && f.Detail.Minimized == nil) {
+		r.Broken("replay file has no program: %v", err)
+		return r.Finish(rule, assumptions, 0)
+	}
+	p := f.Detail.Minimized
+	if p == nil {
+		p = f.Detail.Program
+	}
+	for a := 0; a < 5; a++ {
+		q := cloneProgram(*p)
+		q.Name = freshName("r")
+		o := execute(q)
+		if o.inconclusive != "" {
+			r.Inconclusive(o.inconclusive)
+			continue
+		}
+		r.Eval(fmt.Sprintf("%s#%d", q.hash(), a), true)
+		for _, fd := range o.findings {
+			fd.Detail["program"], fd.Detail["attempt"] = q, a
+			r.Violation(fd.Sig, fd.Detail)
+		}
+		if len(o.findings) > 0 {
+			break
+		}
+	}
+	fmt.Printf("replay of %s (recorded signature %s)\n", r.Replay, f.Signature)
+	return r.Finish(rule, assumptions, 0)
 }
